@@ -19,6 +19,7 @@ EXTENDS Integers, Sequences, SequencesExt, FiniteSetsExt
 RECURSIVE Gcd(_,_)
 Gcd(a,b) == IF b = 0 THEN a ELSE Gcd(b, a % b)
 IAbs(x) == IF x < 0 THEN -x ELSE x
+IMax1(x) == IF x < 1 THEN 1 ELSE x
 
 Q(n,d) == LET g  == Gcd(IAbs(n), IAbs(d))
               sg == IF d < 0 THEN -1 ELSE 1
@@ -34,27 +35,38 @@ Two  == <<0,2,1>>
 Half == <<0,1,2>>
 
 IsNaN(x) == x[1] = 2
+\* k = 3: "irrational, not representable exactly".  It arises only in the engine-level models (square
+\* roots of non-squares); every arithmetic operator is strict in it and every comparison with it is
+\* FALSE.  Drivers skip a case as soon as an observed value carries the marker.
+Irr == <<3,0,1>>
+IsIrr(x) == x[1] = 3
+\* k = 4: "the library raises here" (a missing operator met during evaluation, C19); strict like Irr and dominating it
+Err == <<4,0,1>>
+IsErr(x) == x[1] = 4
+IsBad(x) == x[1] >= 3
+Worst(a, b) == IF IsErr(a) \/ IsErr(b) THEN Err ELSE Irr
 IsFin(x) == x[1] = 0
 IsInf(x) == x[1] = 1 \/ x[1] = -1
-IsXReal(x) == /\ x \in Seq(Int) /\ Len(x) = 3 /\ x[1] \in {-1,0,1,2}
+IsXReal(x) == /\ x \in Seq(Int) /\ Len(x) = 3 /\ x[1] \in {-1,0,1,2,3,4}
               /\ (x[1] # 0 => x[2] = 0 /\ x[3] = 1)
               /\ (x[1] = 0 => x[3] > 0 /\ Gcd(IAbs(x[2]), x[3]) = 1)
 
 Sign(x) == IF x[1] = 0 THEN (IF x[2] > 0 THEN 1 ELSE IF x[2] < 0 THEN -1 ELSE 0) ELSE x[1]
 
-Neg(x) == IF IsNaN(x) THEN NaN ELSE IF IsFin(x) THEN <<0,-x[2],x[3]>> ELSE <<-x[1],0,1>>
-Abs(x) == IF IsNaN(x) THEN NaN ELSE IF IsFin(x) THEN <<0,IAbs(x[2]),x[3]>> ELSE PInf
+Neg(x) == IF IsBad(x) THEN x ELSE IF IsNaN(x) THEN NaN ELSE IF IsFin(x) THEN <<0,-x[2],x[3]>> ELSE <<-x[1],0,1>>
+Abs(x) == IF IsBad(x) THEN x ELSE IF IsNaN(x) THEN NaN ELSE IF IsFin(x) THEN <<0,IAbs(x[2]),x[3]>> ELSE PInf
 
-Add(a,b) == IF IsNaN(a) \/ IsNaN(b) THEN NaN
-            ELSE IF IsFin(a) /\ IsFin(b) THEN Q(a[2]*b[3] + b[2]*a[3], a[3]*b[3])
+Add(a,b) == IF IsBad(a) \/ IsBad(b) THEN Worst(a, b) ELSE IF IsNaN(a) \/ IsNaN(b) THEN NaN
+            ELSE IF IsFin(a) /\ IsFin(b) THEN LET g == Gcd(a[3], b[3]) IN Q(a[2]*(b[3] \div g) + b[2]*(a[3] \div g), (a[3] \div g)*b[3])   \* lcm keeps 32-bit intermediates small
             ELSE IF IsInf(a) /\ IsInf(b) THEN (IF a[1] = b[1] THEN a ELSE NaN)
             ELSE IF IsInf(a) THEN a ELSE b
 Sub(a,b) == Add(a, Neg(b))
-Mul(a,b) == IF IsNaN(a) \/ IsNaN(b) THEN NaN
-            ELSE IF IsFin(a) /\ IsFin(b) THEN Q(a[2]*b[2], a[3]*b[3])
+Mul(a,b) == IF IsBad(a) \/ IsBad(b) THEN Worst(a, b) ELSE IF IsNaN(a) \/ IsNaN(b) THEN NaN
+            ELSE IF IsFin(a) /\ IsFin(b) THEN LET g1 == Gcd(IAbs(a[2]), b[3])  g2 == Gcd(IAbs(b[2]), a[3]) IN
+                 Q((a[2] \div IMax1(g1))*(b[2] \div IMax1(g2)), (a[3] \div IMax1(g2))*(b[3] \div IMax1(g1)))   \* cross-cancel first
             ELSE IF Sign(a) = 0 \/ Sign(b) = 0 THEN NaN          \* 0 * inf
             ELSE IF Sign(a) * Sign(b) > 0 THEN PInf ELSE NInf
-Div(a,b) == IF IsNaN(a) \/ IsNaN(b) THEN NaN
+Div(a,b) == IF IsBad(a) \/ IsBad(b) THEN Worst(a, b) ELSE IF IsNaN(a) \/ IsNaN(b) THEN NaN
             ELSE IF IsFin(a) /\ IsFin(b) THEN
                  (IF b[2] = 0 THEN (IF a[2] = 0 THEN NaN ELSE IF a[2] > 0 THEN PInf ELSE NInf)
                   ELSE Q(a[2]*b[3], a[3]*b[2]))
@@ -66,24 +78,24 @@ RECURSIVE PowI(_,_)
 PowI(a, n) == IF n = 0 THEN One ELSE Mul(a, PowI(a, n-1))     \* n a natural number
 
 \* comparisons: FALSE as soon as one side is NaN (IEEE)
-Lt(a,b) == IF IsNaN(a) \/ IsNaN(b) THEN FALSE
+Lt(a,b) == IF IsNaN(a) \/ IsNaN(b) \/ IsBad(a) \/ IsBad(b) THEN FALSE
            ELSE IF IsFin(a) /\ IsFin(b) THEN a[2]*b[3] < b[2]*a[3]
            ELSE IF IsFin(a) THEN b[1] = 1
            ELSE IF IsFin(b) THEN a[1] = -1
            ELSE a[1] < b[1]
-Eq(a,b) == ~IsNaN(a) /\ ~IsNaN(b) /\ a = b
+Eq(a,b) == ~IsNaN(a) /\ ~IsNaN(b) /\ ~IsBad(a) /\ ~IsBad(b) /\ a = b
 Le(a,b) == Lt(a,b) \/ Eq(a,b)
 Gt(a,b) == Lt(b,a)
 Ge(a,b) == Le(b,a)
 Ne(a,b) == ~Eq(a,b)                       \* IEEE: NaN != x is TRUE
 
 \* numpy.minimum / maximum / clip
-XMin(a,b) == IF IsNaN(a) \/ IsNaN(b) THEN NaN ELSE IF Le(a,b) THEN a ELSE b
-XMax(a,b) == IF IsNaN(a) \/ IsNaN(b) THEN NaN ELSE IF Le(a,b) THEN b ELSE a
+XMin(a,b) == IF IsBad(a) \/ IsBad(b) THEN Worst(a, b) ELSE IF IsNaN(a) \/ IsNaN(b) THEN NaN ELSE IF Le(a,b) THEN a ELSE b
+XMax(a,b) == IF IsBad(a) \/ IsBad(b) THEN Worst(a, b) ELSE IF IsNaN(a) \/ IsNaN(b) THEN NaN ELSE IF Le(a,b) THEN b ELSE a
 Clip(x, lo, hi) == XMin(XMax(x, lo), hi)
 
 \* Activated.degree setter:  numpy.nan_to_num(x, nan=0, neginf=0, posinf=1)
-NanToNum01(x) == IF IsNaN(x) \/ x = NInf THEN Zero ELSE IF x = PInf THEN One ELSE x
+NanToNum01(x) == IF IsBad(x) THEN x ELSE IF IsNaN(x) \/ x = NInf THEN Zero ELSE IF x = PInf THEN One ELSE x
 
 Ind(b) == IF b THEN One ELSE Zero
 
